@@ -72,6 +72,7 @@ static int in_main;
 static int cb_depth;
 static int nwaits;
 static int callbacks_since_wait;
+static int last_wait_nready, fruitless_wakeups;
 static int zero_waits_in_a_row;
 static int task_round;		/* increments at every wait (a "round" of tasks ends at a wait) */
 static int tasks_ran_this_round;
@@ -610,6 +611,14 @@ static void wait_entry(struct kwait_info *wi)
 	} else {
 		zero_waits_in_a_row = 0;
 	}
+	/* C07: every wake-up makes progress: the kernel reporting events after which nothing is dispatched may
+	 * happen once (a stale timer-descriptor expiry, a band cleared meanwhile), not again and again */
+	if (last_wait_nready > 0 && callbacks_since_wait == 0)
+		fruitless_wakeups++;
+	else
+		fruitless_wakeups = 0;
+	sx_assert(fruitless_wakeups < 2, "C07.wakes-up-repeatedly-without-dispatching");
+	last_wait_nready = 0;	/* an interrupted wait reports nothing */
 	callbacks_since_wait = 0;
 	/* C06: never sleeps with a task registered */
 	for (i = 0; i < nJ; i++)
@@ -698,6 +707,7 @@ static void wait_return(struct kwait_info *wi, int nready)
 
 	if (in_probe)
 		return;
+	last_wait_nready = nready;
 	/* what did the kernel report for each harness descriptor? */
 	for (i = 0; i < nK; i++) {
 		struct fdrec *r = &F[i];
